@@ -238,6 +238,21 @@ def c12(tier, seed, replay=None):
     return rc
 
 
+def c14_nondiff(verdict):
+    """non-differentiable function set of C14, judged by Dispatch!NdOK; returns a coverage dict"""
+    rows, files = vlib.parallel_replay("dispatch_sweep.py", [{"nondiff": True}], nproc=1, tag="nondiff", timeout=900)
+    accepted, g2, d2, _w, _inv = vlib.parallel_validate("TraceDispatch", files, cfg="SPECIFICATION Spec\n", njvm=1)
+    for row in rows:
+        ok = row["plain_eq"] and row["unboxed"] and row["blocks"]
+        if ok != (row["id"] in accepted):
+            raise vlib.MachineryError("TLC and the Python mirror disagree on non-differentiable row %s" % row)
+        if not ok:
+            why = row["exc"] or ("value under tracing differs from NumPy's" if not row["plain_eq"] else
+                                 ("a tracer was returned" if not row["unboxed"] else "derivative flow is not blocked: d/dx sum(x*f(x)) != f(x)"))
+            verdict.violation({"prim": row["name"], "mode": row["mode"], "template": row["template"]}, {"reason": why, "row": row})
+    return {"functions": len({r_["name"] for r_ in rows}), "rows": len(rows), "accepted": len(accepted), "states": d2, "transitions": g2}
+
+
 def c15(tier, seed, replay=None):
     t0 = time.time()
     verdict = vlib.Verdict("C15")
